@@ -159,8 +159,11 @@ def _install_tm_lemmas(key, ctx, log):
                 eng.notes_dict = {}
             if ok is None:
                 pre = z3.Or(tt_ * 100 > 1, tt_ <= 0, xt_ > 600, xt_ < -600)
-                rr, _ = eng.check(pre, timeout=20000)
-                ok = rr == 'unsat'
+                # light cone-of-influence slice first (kappa bound, c_iq >= sqrt(2) beta, |mu| <= 20 beta), full path as fall-back
+                ok = eng.check_slice(pre, timeout=5000, depth=1) == 'unsat'
+                if not ok:
+                    rr, _ = eng.check(pre, timeout=40000)
+                    ok = rr == 'unsat'
                 eng.notes_dict[key_] = ok
                 log.append((name, ok))
             if ok:
